@@ -103,8 +103,7 @@ func (x *c20SX) ev(e ast.Expr, st *c20St) []c20EV {
 		}
 		return out
 	case *ast.FuncLit:
-		// a closure can change the locals it captures behind the executor's back
-		return c20One(st.abort(e, "function literal (closures are outside the executor's model)"), c20V{})
+		return c20One(st, c20V{k: c20kFunc, lit: e, typ: x.info.TypeOf(e)})
 	}
 	return c20One(st, c20Unknown("expression `%s`", x.srcOf(e)))
 }
@@ -193,6 +192,9 @@ func (x *c20SX) field(b c20V, f *types.Var, st *c20St, at ast.Node) c20V {
 				return c20V{k: c20kObj, tag: "body", id: b.id}
 			}
 		case "doc":
+			if v, ok := b.fields[f.Name()]; ok {
+				return v // a struct value built in the call (parameter group, option value): the field as given
+			}
 			return c20V{k: c20kSel, base: &b, name: f.Name(), typ: f.Type()}
 		}
 	case c20kSel:
@@ -251,6 +253,9 @@ func (x *c20SX) composite(cl *ast.CompositeLit, st *c20St, addr bool) []c20EV {
 			}
 			return out
 		}
+	}
+	if c20IsBuilderType(t) && !addr && len(cl.Elts) == 0 {
+		return c20One(st, x.zero(t))
 	}
 	nt, _ := t.(*types.Named)
 	stt, _ := t.Underlying().(*types.Struct)
@@ -320,29 +325,11 @@ func (x *c20SX) binop(op token.Token, a, b c20V, at ast.Node) c20V {
 
 // typeAssert models `v, ok := X.(T)` for error values.
 func (x *c20SX) typeAssert(ta *ast.TypeAssertExpr, v c20V) (c20V, c20V) {
-	want := x.info.TypeOf(ta.Type)
-	switch v.k {
-	case c20kNil:
+	if ok, known := x.hasType(v, x.info.TypeOf(ta.Type)); known {
+		if ok {
+			return v, c20V{k: c20kBool, b: true}
+		}
 		return c20V{k: c20kNil}, c20V{k: c20kBool, b: false}
-	case c20kErr:
-		if v.typ == nil && want != nil {
-			// an error created elsewhere (fmt.Errorf, another package): never one of the package's concrete types
-			if _, isIface := want.Underlying().(*types.Interface); !isIface && x.pkgErrType(want) != "" {
-				return c20V{k: c20kNil}, c20V{k: c20kBool, b: false}
-			}
-		}
-		if v.typ != nil && want != nil {
-			vt := v.typ
-			if v.b {
-				vt = types.NewPointer(v.typ)
-			}
-			if types.Identical(vt, want) {
-				return v, c20V{k: c20kBool, b: true}
-			}
-			if _, isIface := want.Underlying().(*types.Interface); !isIface {
-				return c20V{k: c20kNil}, c20V{k: c20kBool, b: false}
-			}
-		}
 	}
 	return c20Unknown("type assertion `%s`", x.srcOf(ta)), c20Unknown("type assertion `%s`", x.srcOf(ta))
 }
